@@ -76,6 +76,10 @@ def normOp (toks : List String) : List String :=
   | ["applyblock", x] => ["applyblocks", x]
   | ["applyblockb", x, g] => ["applyblocksb", x, g]
   | ["ksdirect", _, n] => ["ksblocks", n]
+  | ["encio", x] => ["enc", x]             -- `encrypt_inout` called directly = `encrypt`
+  | ["decio", x] => ["dec", x]
+  | ["enciob", x, g] => ["encb", x, g]     -- `InOutBuf::new(in, out)` + `encrypt_inout` = `encrypt_b2b`
+  | ["deciob", x, g] => ["decb", x, g]
   | t => t
 
 partial def runCase {σ : Type} (m : Machine σ) (h out : IO.FS.Stream) (s : σ) : IO Bool := do
